@@ -1,32 +1,45 @@
 #!/venv/bin/python
 """Apply a seeded change to /repo, run the given checks (quick tier), undo the change.
-usage: tools/seeded_eval.py <seed-dir-name> [check ids...]   (default: the property the seed is for)
+usage: tools/seeded_eval.py [--worktree] <seed-dir-name> [check ids...]   (default: the property the seed is for)
+--worktree: while a long background run is reading /repo, apply the change to a scratch worktree of /repo HEAD
+            instead and point the checks at it (ASIMAP_SRC); recorded as mode=worktree in detection.json.
 Prints one line per check: DETECTED (exit 1 + VIOLATION line) / missed (exit 0) / broken (other)."""
 import json, os, subprocess, sys, time
 ROOT = os.path.dirname(os.path.dirname(os.path.abspath(__file__)))
+WT = "--worktree" in sys.argv
+if WT:
+    sys.argv.remove("--worktree")
 name = sys.argv[1]
 d = os.path.join(ROOT, "seeded", name)
 meta = json.load(open(os.path.join(d, "meta.json")))
 checks = sys.argv[2:] or [meta["property"]]
 patch = os.path.join(d, "patch.diff")
-st = subprocess.run(["git", "-C", "/repo", "status", "--porcelain"], capture_output=True, text=True).stdout.strip()
+SRC = "/repo"
+if WT:
+    SRC = f"/tmp/seedeval-{name}"
+    subprocess.run(["git", "-C", "/repo", "worktree", "remove", "--force", SRC], capture_output=True)
+    subprocess.run(["git", "-C", "/repo", "worktree", "add", "-q", "--detach", SRC, "HEAD"], check=True)
+st = subprocess.run(["git", "-C", SRC, "status", "--porcelain"], capture_output=True, text=True).stdout.strip()
 if st:
-    sys.exit("refusing: /repo working tree is not clean:\n" + st)
-subprocess.run(["git", "-C", "/repo", "apply", patch], check=True)
+    sys.exit(f"refusing: {SRC} working tree is not clean:\n" + st)
+subprocess.run(["git", "-C", SRC, "apply", patch], check=True)
 results = {}
 try:
     for c in checks:
         t0 = time.time()
         cp = subprocess.run([os.path.join(ROOT, "vcheck"), c, "--tier", os.environ.get("SEED_TIER", "quick"), "--no-recheck"], capture_output=True, text=True, cwd=ROOT,
-                            env=dict(os.environ, VF_NO_EVIDENCE="1"))
+                            env=dict(os.environ, VF_NO_EVIDENCE="1", ASIMAP_SRC=SRC))
         viol = [l for l in cp.stdout.splitlines() if l.startswith("VIOLATION")]
         verdict = "DETECTED" if cp.returncode == 1 and viol else ("missed" if cp.returncode == 0 else f"broken(rc={cp.returncode})")
-        results[c] = {"verdict": verdict, "violations": len(viol), "wall_s": round(time.time() - t0, 1),
+        results[c] = {"verdict": verdict, "mode": "worktree" if WT else "repo", "violations": len(viol), "wall_s": round(time.time() - t0, 1),
                       "first": (viol[0][:300] if viol else (cp.stdout + cp.stderr)[-300:] if verdict.startswith("broken") else "")}
         print(f"{name} {c}: {verdict} ({len(viol)} violation lines, {results[c]['wall_s']}s) {results[c]['first'][:200]}")
 finally:
-    subprocess.run(["git", "-C", "/repo", "checkout", "--", "."], check=True)
-    subprocess.run(["git", "-C", "/repo", "clean", "-fdq", "asimap"], check=False)
+    if WT:
+        subprocess.run(["git", "-C", "/repo", "worktree", "remove", "--force", SRC], check=False)
+    else:
+        subprocess.run(["git", "-C", "/repo", "checkout", "--", "."], check=True)
+        subprocess.run(["git", "-C", "/repo", "clean", "-fdq", "asimap"], check=False)
 out = os.path.join(d, "detection.json")
 prev = json.load(open(out)) if os.path.exists(out) else {}
 prev.update(results)
